@@ -2,13 +2,13 @@
 from gateprops import run_gate_check, oracle_c01
 
 PROP = "C01"
-LEAN_FILES = ["QibProofs/Properties/C01.lean"]
+LEAN_FILES = ["QibProofs/Properties/C01.lean", "QibProofs/Properties/C01Tree.lean"]
 GEN = ("gates", "pauli")
 DRIVER = "drv_gate"
 LEVEL_TEXT = ("Lean 4 theorems over (a) the leaf closed forms regenerated from gates.py by the translator and (b) combinators for "
               "controlled / multiplexed / time-evolution / block-encoding / preparation gates over arbitrary index types, lifted to every "
               "gate tree by structural induction; composite assembly (kron/diag/block_diag/np.block, inverse(), is_hermitian delegation) "
-              "is tied to the code by exact differential execution of the Lean model on the same gate trees."
+              "is tied to the code by exact differential execution of the Lean model on the same gate trees; the same statements are ALSO proved directly about the executable gate-tree model that the driver runs (Tree.mat / inverse / herm over exact Gaussian rationals, structural induction over Tree.WF, files C..Tree.lean)."
               " Pauli strings and weighted strings: is_unitary() claims are exact (every string matrix is unitary; a weighted string iff |weight| = 1), tied by differential execution.")
 ASSUMPTIONS = ["scipy.linalg.expm is modelled by NormedSpace.exp, sqrtm(1-H^2) by any Hermitian square root commuting with H, "
                "np.linalg.qr by any real orthogonal completion with first column +-x/|x| (each assumption is checked numerically on every sampled call)",
